@@ -337,7 +337,7 @@ def run_coq_cases(terms, tag, shards=None, timeout=1200):
     os.makedirs(GEN, exist_ok=True)
     n = len(terms)
     if shards is None:
-        shards = max(1, min(NCPU, n // 40 + 1))
+        shards = max(1, min(NCPU, n // 6 + 1))
     files = []
     for s in range(shards):
         idxs = list(range(s, n, shards))
